@@ -115,6 +115,7 @@ type FuncEnc struct {
 	inlineStack      []*inlineFrame
 	selfClosure      *ssa.MakeClosure          // the closure literal this function is (verified on its own)
 	noPreserve       map[*ssa.Alloc]bool       // private cells a closure callee may write (during its contract call)
+	noPreserveOuter  map[*ssa.Alloc]bool
 	fvBind           map[*ssa.FreeVar]ssa.Value
 	BodyErrs         []string          // "request body could not be read/decoded" conditions seen so far
 }
@@ -722,6 +723,12 @@ func (e *FuncEnc) encodeBlock(b *ssa.BasicBlock) {
 	if li != nil {
 		// loop header: entry edges must establish the invariants -> checked at
 		// the predecessors' ends (below, in terminators). Here: havoc.
+		// Private cells that the loop body may write are not preserved.
+		savedNP := e.noPreserve
+		e.noPreserve = e.privateWrittenIn(li)
+		for a := range savedNP {
+			e.noPreserve[a] = true
+		}
 		if li.modTop {
 			e.havocAll(e.cur)
 		} else {
@@ -740,6 +747,7 @@ func (e *FuncEnc) encodeBlock(b *ssa.BasicBlock) {
 		if li.modTrace {
 			e.cur.trace = e.newSym("tr", "Trace")
 		}
+		e.noPreserve = savedNP
 	}
 	for _, in := range b.Instrs {
 		if phi, ok := in.(*ssa.Phi); ok {
@@ -1187,4 +1195,53 @@ func (e *FuncEnc) loopFrame(li *loopInfo, key, before, after string) {
 	// fresh allocations made inside the loop are newer than every cell that existed before it
 	conds = append(conds, fmt.Sprintf("(<= (atime a) (+ T0 %d))", e.allocIdx))
 	e.emit(fmt.Sprintf("(assert (forall ((a Int)) (! (=> %s (= (select %s a) (select %s a))) :pattern ((select %s a)))))", and(conds...), after, before, after))
+}
+
+// privateWrittenIn: local variable cells that the body of the loop may write
+// (stores through their address, closures that capture them).
+func (e *FuncEnc) privateWrittenIn(li *loopInfo) map[*ssa.Alloc]bool {
+	out := map[*ssa.Alloc]bool{}
+	var root func(v ssa.Value, d int) *ssa.Alloc
+	root = func(v ssa.Value, d int) *ssa.Alloc {
+		if d > 8 {
+			return nil
+		}
+		switch x := v.(type) {
+		case *ssa.Alloc:
+			return x
+		case *ssa.FieldAddr:
+			return root(x.X, d+1)
+		case *ssa.IndexAddr:
+			return root(x.X, d+1)
+		}
+		return nil
+	}
+	for b := range li.body {
+		for _, in := range b.Instrs {
+			switch x := in.(type) {
+			case *ssa.Store:
+				if a := root(x.Addr, 0); a != nil {
+					out[a] = true
+				}
+			case ssa.CallInstruction:
+				c := x.Common()
+				var binds []ssa.Value
+				if mc, ok := c.Value.(*ssa.MakeClosure); ok {
+					binds = mc.Bindings
+				} else if mc := e.resolveClosure(c.Value, 0); mc != nil {
+					binds = mc.Bindings
+				}
+				for a := range capturedAllocs(binds) {
+					out[a] = true
+				}
+				// an address handed to a callee (not private then, but harmless)
+				for _, arg := range c.Args {
+					if a := root(arg, 0); a != nil {
+						out[a] = true
+					}
+				}
+			}
+		}
+	}
+	return out
 }
